@@ -304,7 +304,14 @@ class TerminalDevice(Device):
             new_line = printables[-1] not in [comma, semicolon]
             printables = [a.value for a in printables
                           if a != semicolon and a != comma]
-            self.impl.terminal_print(formatter.format(printables))
+            try:
+                text = formatter.format(printables)
+            except RuntimeError as e:
+                # wrong number or type of values for the format string
+                self._device_error(
+                    error_code=Device.Error.BAD_ARG_VALUE,
+                    error_msg=f'PRINT USING: {e}')
+            self.impl.terminal_print(text)
             if new_line:
                 self.impl.terminal_print('\r\n')
         else:
